@@ -318,11 +318,17 @@ def check_C05(ctx):
     cases = []
     tabs = [(1, 9), (2, 11), (12, 12)]
     reps = 1 if ctx.tier == "quick" else 4
+    # the property covers every reader whose construction printed no diagnostic for the table
+    flagged = core.probe_diagnostics(ctx.harness("debug", ())) if ctx.harness("debug", ()) else {}
+    names = {8: "u8", 16: "u16", 32: "u32", 64: "u64", 0: "unbuffered"}
+    ctx.v.cov["diagnostics"] = {k: sorted(v) for k, v in flagged.items()}
+    tnum = {1: 0, 2: 1, 12: 2}
     for cid, rb in tabs:
+        eligible = [w for w in (8, 16, 32, 64, 0) if tnum[cid] not in flagged.get(names[w], {0, 1, 2})]
         for E in (0, 1):
             for idx in range(1 << rb):
                 for _ in range(reps):
-                    rW = rng.choice([16, 32, 64, 0]) if rb <= 16 else rng.choice([32, 64, 0])
+                    rW = rng.choice(eligible)
                     Wb = rW if rW else 64
                     off = rng.randrange(0, 2 * Wb)
                     pre = [rng.getrandbits(1) for _ in range(off)]
@@ -497,7 +503,7 @@ def check_C08(ctx):
                 fills = gen.levels_for(2 * Wb, rng, 8)
                 for fill in (fills if ctx.tier != "quick" else rng.sample(fills, min(len(fills), 7))):
                     pre_r = gen.reader_fill_prefix(rW, fill, rng)
-                    for _ in range(n_each if ctx.tier != "quick" else 2):
+                    for _ in range(n_each if ctx.tier != "quick" else 4):
                         used = rng.randrange(wW)
                         pre_w = gen.fill_prefix_w(wW, used)
                         n = rng.choice([0, 1, rng.randrange(2 * Wb), fill, fill + 1, max(0, fill - 1), Wb, wW, rng.randrange(5 * max(Wb, wW)), 64, 65, 128, 129])
@@ -515,6 +521,38 @@ def check_C08(ctx):
     if ctx.tier != "quick":
         builds += [("release", ("no_copy_impls",)), ("debug", ("checks",)), ("debug", ("checks", "no_copy_impls"))]
     ctx.corr(cases, builds=builds, what="C08 bulk copy")
+    # continuations made only of look-ahead (table) reads over a VALID stream of short codes, so that
+    # consecutive peek refills follow the copy without any slow-path read in between
+    wcases = []
+    for E in (0, 1):
+        for kind in range(3):
+            ops = []
+            for _ in range(700):
+                v = rng.randrange(0, 12) if rng.random() < 0.9 else rng.randrange(0, 300)
+                ops.append([4, [1, 2, 12][kind], 0, 0, v])
+            ops.append([3])
+            wcases.append(Case([world_hdr(E, wW=64, wbackend=0), []] + ops, "copy-stream/write"))
+    wr = ctx.corr(wcases, what="C08 code stream (write)")
+    ccases = []
+    for c, r in zip(wcases, wr or []):
+        if not r or r[-1][0] != 99:
+            continue
+        E = c.groups[0][1]
+        cid = c.groups[2][1]
+        data = r[-1][1:]
+        for rW in (16, 32, 64, 0):
+            Wb = rW if rW else 64
+            for _ in range(12 if ctx.tier == "quick" else 80):
+                fill = rng.randrange(2 * Wb if rW else 64)
+                wW = rng.choice(gen.WORDS_W)
+                n = rng.choice([rng.randrange(1, 4 * Wb), fill + 1, fill + Wb, fill + Wb + 1, Wb, 2 * Wb + 1, 129, 64, 65])
+                op = rng.choice([30, 30, 31])
+                fl = 1 if cid != 2 else rng.choice([1, 2, 3, 4])
+                cont = [[15, cid, 0, fl]] * rng.randrange(3, 40)
+                ops = gen.reader_fill_prefix(rW, fill, rng) + gen.fill_prefix_w(wW, rng.randrange(wW)) + [[op, n]] + cont + [[17], [op, rng.randrange(1, 100)], [15, cid, 0, fl], [3]]
+                ccases.append(Case([world_hdr(E, wW=wW, rW=rW, rstrict=1, wbackend=3), list(data)] + ops,
+                                   "copy-then-table-reads/r%d/code%d" % (rW, cid)))
+    ctx.corr(ccases, builds=builds, what="C08 copy then table reads")
 
 
 # =============================================================================== C12
@@ -725,7 +763,36 @@ def check_C16(ctx):
         for b in codes:
             eq_ops.append([4, a[0], a[1], b[0], b[1]])
     icases = [Case([[5], []] + (iops + eq_ops)[i:i + 200], "identifiers", levels=(2,)) for i in range(0, len(iops + eq_ops), 200)]
-    ctx.corr(icases, what="C16 identifiers")
+    irust = ctx.corr(icases, what="C16 identifiers")
+    # oracle on the implementation: codes that compare equal write identical codewords
+    eqpairs = set()
+    for c, r in zip(icases, irust or []):
+        for op, g in zip(c.groups[2:], r):
+            if op[0] == 4 and g and g[0] == 0 and g[1] == 1 and (op[1], op[2]) != (op[3], op[4]):
+                eqpairs.add(((op[1], op[2]), (op[3], op[4])))
+    vals = list(range(0, 40)) + [100, 1000, 12345]
+    ecases = []
+    emeta = []
+    for (a, b) in sorted(eqpairs):
+        for E in (0, 1):
+            ops = []
+            for v in vals:
+                if a[0] == 8 and (a[1] == 0 or v // max(a[1], 1) > 4000) or b[0] == 8 and (b[1] == 0 or v // max(b[1], 1) > 4000):
+                    continue
+                ops.append([5, 1, a[0], a[1], v])
+                ops.append([5, 1, b[0], b[1], v])
+            ecases.append(Case([[6, E], []] + ops, "eq-codewords", levels=(2,)))
+            emeta.append((a, b, E))
+    em = {id(c): m for c, m in zip(ecases, emeta)}
+
+    def oracle_eq(c, r):
+        a, b, E = em[id(c)]
+        ops = c.groups[2:]
+        for i in range(0, len(ops) - 1, 2):
+            if i + 1 < len(r) and r[i] and r[i + 1] and r[i][0] == 0 and r[i + 1][0] == 0 and r[i] != r[i + 1]:
+                return "codes %r and %r compare equal but the codewords of %d differ (E=%d): %r vs %r" % (a, b, ops[i][4], E, r[i][1:], r[i + 1][1:])
+        return None
+    ctx.corr(ecases, what="C16 equal codes write equal codewords", oracle=oracle_eq)
 
 
 def check_C10(ctx):
@@ -733,7 +800,7 @@ def check_C10(ctx):
                          "(enum, ConstCode, FuncCode*, factory, stats wrapper) x {read, write, len} x value grid x endianness; "
                          "bytes/values/lengths vs the direct method through the model generated from the dispatch tables")
     rng = ctx.rng
-    vals = [0, 1, 2, 3, 5, 7, 8, 15, 16, 63, 64, 100, 255, 256, 1000, 1023, 1024, 65535, (1 << 20) + 3, rng.getrandbits(24), rng.getrandbits(31)]
+    vals = [0, 1, 2, 3, 4, 5, 6, 7, 8, 9, 10, 11, 12, 15, 16, 63, 64, 100, 255, 256, 1000, 1023, 1024, 65535, (1 << 20) + 3, rng.getrandbits(24), rng.getrandbits(31)]
     if ctx.tier != "quick":
         vals += list(range(9, 200)) + [rng.getrandbits(40) for _ in range(20)]
     cases = []
@@ -752,11 +819,13 @@ def check_C10(ctx):
                     ops.append([1, opk, cid, 0, v])
         for var in range(11):
             for p in ([0] if var < 6 else range(0, 13)):
-                for dk in (0, 2, 3, 4):
+                for dk in (0, 2, 3, 4, 5):
                     for opk in (0, 1, 2):
                         if dk == 3 and opk != 0:
                             continue
                         if dk == 4 and opk == 2:
+                            continue
+                        if dk == 5 and opk == 0:
                             continue
                         for v in vals:
                             if var in (0,) and v > 5000:
@@ -781,7 +850,29 @@ def check_C10(ctx):
             if op[1] == 0 and g and g[0] == 0 and g[1] != op[4]:
                 return "dispatcher kind %d read %d where the direct method wrote %d (code %d/%d)" % (op[0], g[1], op[4], op[2], op[3])
         return None
-    ctx.corr(cases, what="C10 dispatch", oracle=oracle)
+    rust = ctx.corr(cases, what="C10 dispatch", oracle=oracle)
+    # the property's own oracle on the implementation: every dispatcher writes the bytes / reports the
+    # length of the code's own method (kind 5) for the same code, value and endianness
+    direct = {}
+    others = []
+    for c, r in zip(cases, rust or []):
+        E = c.groups[0][1]
+        for op, g in zip(c.groups[2:], r):
+            if op[1] in (1, 2) and g and g[0] == 0 and op[0] != 1:
+                key = (E, op[1], op[2], op[3], op[4])
+                if op[0] == 5:
+                    direct[key] = g
+                else:
+                    others.append((key, op[0], g))
+    for key, dk, g in others:
+        d = direct.get(key)
+        if d is not None and d != g:
+            E, opk, var, p, v = key
+            ctx.v.violation("dispatcher kind %d %s differs from the code's own method for variant %d param %d value %d (E=%d): %r vs %r"
+                            % (dk, "write" if opk == 1 else "len", var, p, v, E, g, d),
+                            {"kind": "disagreement", "class_key": "dispatch-vs-direct", "case": "6 %x;;%x %x %x %x %x;5 %x %x %x %x" % (E, dk, opk, var, p, v, opk, var, p, v),
+                             "levels": [], "dispatcher": g, "direct": d}, True)
+            break
 
 
 def check_C17(ctx):
